@@ -172,11 +172,11 @@ fn check_k_model(h: &CaseH, m: &Model, do_meta: bool) -> Verdict {
         vensure!(close(c.a as f64, ea, x.tol_a + 0.01, rt), "C08:category-area", "category {} area reported {} expected {:.3}", name, c.a, ea);
         vensure!(close(c.au as f64, eau, x.tol_au + 0.01, rt), "C08:category-au", "category {} A*U reported {} expected {:.3}", name, c.au, eau);
         if let (Some(mn), Some(mx), Some(me)) = (c.u_min, c.u_max, c.u_mean) {
-            vensure!(me >= mn - 1e-3 - 1e-4 * mn.abs() && me <= mx + 1e-3 + 1e-4 * mx.abs(), "C08:mean-outside-min-max", "category {} mean {} outside [{}, {}]", name, me, mn, mx);
+            vensure!(me >= mn - 2e-4 - 1e-4 * mn.abs() && me <= mx + 2e-4 + 1e-4 * mx.abs(), "C08:mean-outside-min-max", "category {} mean {} outside [{}, {}]", name, me, mn, mx);
         }
     }
     if let (Some(mn), Some(mx), Some(me)) = (k.windows.u_min, k.windows.u_max, k.windows.u_mean) {
-        vensure!(me >= mn - 1e-3 - 1e-4 * mn.abs() && me <= mx + 1e-3 + 1e-4 * mx.abs(), "C08:mean-outside-min-max", "windows mean {} outside [{}, {}]", me, mn, mx);
+        vensure!(me >= mn - 2e-4 - 1e-4 * mn.abs() && me <= mx + 2e-4 + 1e-4 * mx.abs(), "C08:mean-outside-min-max", "windows mean {} outside [{}, {}]", me, mn, mx);
     }
     vensure!(close(sa, k.summary.opaques_a as f64, 1e-3, 1e-5), "C08:breakdown-sum", "categories area sum {} != opaques_a {}", sa, k.summary.opaques_a);
     vensure!(close(sau, k.summary.opaques_au as f64, 1e-3, 1e-5), "C08:breakdown-sum", "categories A*U sum {} != opaques_au {}", sau, k.summary.opaques_au);
